@@ -271,12 +271,37 @@ def make_variant(src_path, ops, seed, out_path):
             if "BoundingBox" in e.attrib:
                 l, t, r, b_ = map(float, e.get("BoundingBox").split())
                 e.set("BoundingBox", f"{l + dx:.2f} {t + dy:.2f} {r + dx:.2f} {b_ + dy:.2f}")
-    if "renumber" in ops:
+    if "renumber" in ops or "renumber_small" in ops:
         ids = sorted({e.get("id") for e in root.iter() if e.tag in ("n", "b") and e.get("id")}, key=int)
         used = {e.get("id") for e in root.iter() if e.get("id")}
-        pool = [str(x) for x in range(50000, 50000 + 3 * len(ids))]
+        if "renumber_small" in ops:
+            # a freshly drawn document numbers its objects from 1: node and bond ids are SMALL numbers (7, 8, 16 ... also atomic numbers)
+            others = used - set(ids)
+            pool = [str(x) for x in range(1, 4 * len(ids) + 400) if str(x) not in others][: len(ids)]
+        else:
+            pool = [str(x) for x in range(50000, 50000 + 3 * len(ids))]
         new = [pool[i] for i in rng.permutation(len(pool))[: len(ids)]]
         mp = dict(zip(ids, new))
+        if "renumber_small" in ops:
+            # ... and among small numbers the interesting coincidence is arranged on purpose: a contracted group (nickname) whose node id
+            # equals the atomic number of a hetero atom drawn earlier in the same fragment (ids are unique, atomic numbers are not ids)
+            inv = {v: k for k, v in mp.items()}
+            for fr in root.iter("fragment"):
+                kids = [c for c in fr if c.tag == "n" and c.get("id")]
+                for gi, g in enumerate(kids):
+                    if g.find("./fragment") is None:
+                        continue
+                    els = [c.get("Element") for c in kids[:gi] if c.get("Element") and c.get("Element") not in ("1", "6")]
+                    for el in els:
+                        if el in others or mp.get(g.get("id")) == el:
+                            continue
+                        # swap: whoever holds the number `el` now gets the group's number
+                        cur = mp[g.get("id")]
+                        holder = inv.get(el)
+                        if holder is not None:
+                            mp[holder], inv[cur] = cur, holder
+                        mp[g.get("id")], inv[el] = el, g.get("id")
+                        break
         for e in root.iter():
             if e.tag in ("n", "b") and e.get("id") in mp:
                 e.set("id", mp[e.get("id")])
@@ -580,7 +605,7 @@ def check(recipe) -> list[Fail]:
             if own is not None and own != frag_el.get("id"):
                 fails.append(Fail("label-resolves-to-a-fragment-other-than-the-one-drawn-above-it", f"{where}: the drawing puts the label under fragment id {own}, molli resolved it to id {frag_el.get('id')}", recipe=sub))
                 continue
-            if intended is not None and "renumber" not in ops and frag_el.get("id") != intended[key]:
+            if intended is not None and "renumber" not in ops and "renumber_small" not in ops and frag_el.get("id") != intended[key]:
                 fails.append(Fail("label-resolves-to-another-fragment", f"{where}: label drawn under fragment id {intended[key]}, resolved to fragment id {frag_el.get('id')}", recipe=sub))
                 continue
             try:
@@ -720,7 +745,7 @@ def enum_identity(tier, shard, nshards):
 
 
 def strat_variants(tier):
-    ops = st.lists(st.sampled_from(["permute_top", "translate", "renumber", "permute_nodes", "group_all", "recharge"]), min_size=1, max_size=4, unique=True)
+    ops = st.lists(st.sampled_from(["permute_top", "translate", "renumber", "renumber_small", "permute_nodes", "group_all", "recharge"]), min_size=1, max_size=4, unique=True).filter(lambda o: not ("renumber" in o and "renumber_small" in o))
     return st.fixed_dictionaries({"file": st.sampled_from(FILES), "ops": ops, "seed": st.integers(0, 10**6), "broken": st.one_of(st.none(), st.integers(0, 50))})
 
 
